@@ -3057,6 +3057,7 @@ static size_t ZSTD_decompress_usingDict(ZSTD_DCtx* ctx,
         {
         case bt_compressed:
             decodedSize = ZSTD_decompressBlock_internal(ctx, op, oend-op, ip, cBlockSize);
+            if (!ZSTD_isError(decodedSize) && decodedSize > BLOCKSIZE) return ERROR(corruption_detected);   /* ZSTD_decompressBound() counts on it */
             break;
         case bt_raw :
             decodedSize = ZSTD_copyRawBlock(op, oend-op, ip, cBlockSize);
@@ -3094,7 +3095,7 @@ void ZSTDv04_findFrameSizeInfoLegacy(const void *src, size_t srcSize, size_t* cS
 {
     const BYTE* ip = (const BYTE*)src;
     size_t remainingSize = srcSize;
-    size_t nbBlocks = 0;
+    unsigned long long bound = 0;
     blockProperties_t blockProperties;
 
     /* Frame Header */
@@ -3128,11 +3129,12 @@ void ZSTDv04_findFrameSizeInfoLegacy(const void *src, size_t srcSize, size_t* cS
 
         ip += cBlockSize;
         remainingSize -= cBlockSize;
-        nbBlocks++;
+        /* an uncompressed block is copied whatever its size (up to the 19 bits of the size field) */
+        bound += ((blockProperties.blockType == bt_raw) && (cBlockSize > BLOCKSIZE)) ? cBlockSize : BLOCKSIZE;
     }
 
     *cSize = ip - (const BYTE*)src;
-    *dBound = nbBlocks * BLOCKSIZE;
+    *dBound = bound;
 }
 
 /* ******************************
